@@ -19,7 +19,7 @@ from ..explore import Chooser, ExecResult
 from ..vloop import Horizon, VLoop
 
 ID = 'C18'
-HOOKS = ('on_run', 'on_running', 'on_exit_running', 'on_wait', 'on_waiting', 'on_exit_waiting', 'on_finish', 'on_finished',
+HOOKS = ('init', 'on_create', 'on_run', 'on_running', 'on_exit_running', 'on_wait', 'on_waiting', 'on_exit_waiting', 'on_finish', 'on_finished',
          'on_terminated', 'on_close', 'on_entering', 'on_entered', 'on_exiting', 'on_pausing', 'on_paused', 'on_playing',
          'on_output_emitting', 'on_output_emitted', 'on_kill', 'on_killed')
 
